@@ -305,6 +305,10 @@ func (h *hist) arriveObs(nic, fam int, src []byte, sport, dport uint16, n int, l
 	case 3:
 		lf = h.r.Intn(8)
 		h.stats.lenTiny++
+	default:
+		if lenMode >= 100 { // exact length field (corpus cases)
+			lf = lenMode - 100
+		}
 	}
 	seg := netx.UDPBytes(src, dst, sport, dport, payload, lf)
 	tr := make([]byte, trailing)
@@ -756,17 +760,65 @@ func genSend(r *gen.Rng, st *stats, w *bufio.Writer, size int, variant int) {
 	h.emit(w)
 }
 
+// genCorpus prints the fixed boundary histories kept in corpus/C11/boundary.case: the witnesses of the
+// two repaired defects, the empty datagram, the buffer overshoot.
+func genCorpus(r *gen.Rng, st *stats, w *bufio.Writer) {
+	// F5: UDP length 12 inside an 18-byte IP payload (the old code delivered 10 bytes), then Length 3
+	h := newHist(r, st, 4, false, 32768)
+	h.bind(nil, 53)
+	h.arrive(1, 4, snd4[0], 4000, 53, 10, 112, 0, 0)
+	h.read()
+	h.arrive(1, 4, snd4[0], 4000, 53, 4, 103, 0, 0)
+	h.read()
+	h.emit(w)
+	// F6: 65530 bytes over IPv4 (the old code emitted IP total length 22, UDP length 2)
+	h = newHist(r, st, 4, false, 32768)
+	h.connect(snd4[0], 4000)
+	h.write(nil, 0, 65530, false)
+	h.write(nil, 0, 65507, false)
+	h.emit(w)
+	// empty datagrams between two others, from two senders; reads tell them apart from "no data"
+	h = newHist(r, st, 6, false, 32768)
+	h.bind(nil, 53)
+	h.read()
+	h.arrive(1, 6, snd6[0], 4000, 53, 5, 0, 0, 0)
+	h.arrive(1, 6, snd6[1], 4001, 53, 0, 0, 0, 0)
+	h.arrive(2, 6, snd6[0], 4000, 53, 0, 0, 0, 2)
+	h.arrive(1, 4, snd4[0], 4000, 53, 1, 0, 0, 0)
+	for i := 0; i < 5; i++ {
+		h.read()
+	}
+	h.emit(w)
+	// capacity 1: a 4-byte datagram is accepted (the test is "already full?"), the next is dropped whole
+	h = newHist(r, st, 4, false, 1)
+	h.bind(nic4[1], 53)
+	h.arrive(1, 4, snd4[0], 4000, 53, 4, 0, 0, 0)
+	h.arrive(1, 4, snd4[1], 4001, 53, 9, 0, 0, 0)
+	h.read()
+	h.arrive(1, 4, snd4[1], 4001, 53, 9, 0, 0, 0)
+	h.shutdown(true, false)
+	h.arrive(1, 4, snd4[1], 4001, 53, 2, 0, 0, 0)
+	h.read()
+	h.read()
+	h.emit(w)
+}
+
 func main() {
 	log.SetOutput(io.Discard)
 	seed := flag.Uint64("seed", 1, "seed")
 	n := flag.Int("n", 300, "number of receive-side histories")
 	nbig := flag.Int("big", 12, "number of send-side boundary histories with sizes above 9000 (others always run)")
 	nconc := flag.Int("conc", 8, "number of concurrent reader/delivery histories")
+	corpus := flag.Bool("corpus", false, "print only the fixed boundary histories")
 	flag.Parse()
 	w := bufio.NewWriterSize(os.Stdout, 1<<20)
 	defer w.Flush()
 	r := gen.New(*seed)
 	st := &stats{}
+	if *corpus {
+		genCorpus(r, st, w)
+		return
+	}
 	// the send-side lattice: every boundary size x {IPv4, IPv6, v4-mapped} x {connected, bound, unbound};
 	// large sizes are expensive to judge, take a seeded sample of them and spread them over the run
 	type sc struct{ size, variant int }
